@@ -18,7 +18,7 @@ from sim.vkernel import K, MUTATING
 ID = 'C11'
 LEVEL = 'exploration'
 ENGINE = 'history'
-BUDGET = {'quick': 2500, 'thorough': 100000}
+BUDGET = {'quick': 8000, 'thorough': 100000}
 WALL = {'quick': 45, 'thorough': 1500}
 RULE = ('one trash-empty (all modes) or trash-rm per case over trash content with symlink payloads (absolute, relative, dangling, '
         'chains, to files and to directories outside), directory payloads containing such links at depth <= 4, odd info names, trash '
